@@ -65,6 +65,33 @@ def size_cases(ctx, r):
         if c.startswith("set 1"):
             lines.append("parse 1 %s -" % tok("http://u:p@h:8/p?q#f"))
         lines.append(c % t)
+    # end-of-buffer sweep: every prefix after which some scanner looks ahead, followed by every ASCII code unit (and a
+    # few others) as the LAST unit of an exactly sized buffer with no terminator behind it (argument form v) - a
+    # look-ahead that does not test for the end reads out of bounds here, and only here
+    PRE = ["http://a", "http://a%", "http://a%4", "http://a<", "http://a=", "http://h/", "http://h/%", "http://h/%4", "http://h/.", "http://h/%2", "http://h/?%", "http://h/#%4",
+           "http://[::1", "http://[1:2:3:4:5:6:1.2.3", "http://1.2.3.", "http://0x", "http://h:8", "http://u:p", "http:", "http:/", "ws:\\", "file:///C", "file:///", "file://C", "a:",
+           "a:/.", "non-spec://h", "//", "/", "", "x", "C", "?", "#", "xn--", "http://xn--a.b"]
+    LAST = list(range(0, 128)) + [0x80, 0xC3, 0xFF]
+    for pre in PRE:
+        for c in LAST:
+            for e in (["b", "h", "w"] if c in (0x25, 0x2E, 0x2F, 0x3A, 0x3C, 0x3D, 0x3E, 0x40, 0x5B, 0x5C, 0x7C, 0x78, 0x30) else [r.choice(["b", "h", "w", "W"])]):
+                units = S(pre) + [c]
+                lines.append(r.choice(["parse 0 %s -", "parse 0 %s -", "can_parse 0 %s -"]) % tok_units(e, units, "v"))
+    for c in LAST:
+        for pre in ["a", "a%", "a%4", "x<", "1.2.3.", "0x", "[::1", "a:8", "xn--", ""]:
+            e = r.choice(["b", "h", "w"])
+            t = tok_units(e, S(pre) + [c], "v")
+            lines.append("parse 1 %s -" % tok("http://u:p@h:8/p?q#f")); lines.append("set 1 %s %s" % (r.choice(["host", "hostname"]), t))
+            lines.append("host %s" % t)
+            if pre in ("1.2.3.", "0x", "a"):
+                lines.append("ipv4 %s" % t); lines.append("endsnum %s" % t)
+            if pre in ("[::1", "a", ""):
+                lines.append("ipv6 %s" % tok_units(e, S(pre.lstrip("[")) + [c], "v"))
+        for cmd in ["pctdec %s", "pctenc path %s", "urlenc_parse 1 %s", "usp_new 0 %s", "fromfile 0 posix %s", "fromfile 0 windows %s", "set 1 pathname %s", "set 1 port %s", "set 1 protocol %s", "set 1 search %s"]:
+            e = r.choice(["b", "h", "w"])
+            for pre in ["%", "%4", "a", "/", "C", "\\\\h\\", "8"]:
+                if cmd.startswith("set 1"): lines.append("parse 1 %s -" % tok("file:///C:/p?q#f" if "pathname" in cmd else "http://u:p@h:8/p?q#f"))
+                lines.append(cmd % tok_units(e, S(pre) + [c], "v"))
     return [Case(lines[i:i + 200], "sizes") for i in range(0, len(lines), 200)]
 
 def run_c04(ctx, P):
@@ -79,7 +106,8 @@ def run_c04(ctx, P):
         cases = build(ctx, r)
         # the sanitized build is ~10x slower: a sixth of the quick stream, an eighth of the thorough one
         if name != "buffer":
-            cases = cases[:max(4, len(cases) // (8 if ctx.tier == "thorough" else 6))]
+            # every k-th case, so that every family of the stream (focused histories, detached copies, ...) is represented
+            cases = cases[::(8 if ctx.tier == "thorough" else 6)] if len(cases) > 24 else cases
         # C04 is about abnormal outcomes only (sanitizer report, assertion, stray exception, broken
         # state invariant): a functional difference from the model belongs to the other properties,
         # so the model is not consulted here - except in the buffer stream, which is the tie of Impl.Buffer
@@ -326,6 +354,12 @@ FAULT_OPS = [
     (["parse 0 %s -" % tok("http://h/p?a=1&b=2")], "sp 0", None),
     (["parse 0 %s -" % tok("http://h/p?aaaaaaaaaaaaaaaaaaaaaaaaaaaaa=1"), "parse 1 %s -" % tok("http://x/")], "copy 1 0", None),
     (["parse 0 %s -" % tok("http://h/p?aaaaaaaaaaaaaaaaaaaaaaaaaaaaa=1")], "copyctor 1 0", None),
+    # copy / move assignment when the TARGET already owns a params object (it is refilled from the new record)
+    (["parse 0 %s -" % tok("http://h/p?aaaaaaaaaaaaaaaaaaaaaaaaaaaaa=1&bbbbbbbbbbbbbbbbbbbbbbbbbbbbbbbbbbbbbb=2"), "parse 1 %s -" % tok("http://x/?c=3"), "sp 1"], "copy 1 0", None),
+    (["parse 0 %s -" % tok("http://h/p?aaaaaaaaaaaaaaaaaaaaaaaaaaaaa=1&bbbbbbbbbbbbbbbbbbbbbbbbbbbbbbbbbbbbbb=2"), "sp 0", "parse 1 %s -" % tok("http://x/?c=3"), "sp 1"], "copy 1 0", None),
+    (["parse 0 %s -" % tok("http://h/p?aaaaaaaaaaaaaaaaaaaaaaaaaaaaa=1&bbbbbbbbbbbbbbbbbbbbbbbbbbbbbbbbbbbbbb=2"), "parse 1 %s -" % tok("http://x/?c=3"), "sp 1"], "move 1 0", None),
+    (["parse 0 %s -" % tok("http://h/p?aaaaaaaaaaaaaaaaaaaaaaaaaaaaa=1&bbbbbbbbbbbbbbbbbbbbbbbbbbbbbbbbbbbbbb=2"), "sp 0"], "sp_snapshot 0 1", None),
+    (["usp_new 0 %s" % tok("aaaaaaaaaaaaaaaaaaaaaaaaaaaaa=1&bbbbbbbbbbbbbbbbbbbbbbbbbbbbbbbbbbbbbb=2"), "usp_new 1 %s" % tok("c=3")], "usp_assign 1 0", None),
     (["parse 0 %s -" % tok("http://h/p?aaaaaaaaaaaaaaaaaaaaaaaaaaaaa=1"), "sp 0", "parse 1 %s -" % tok("http://x/?bbbbbbbbbbbbbbbbbbbbbbbbbbbbbbbbb=2"), "sp 1"], "swap 0 1", None),
     ([], "host %s" % tok("bücherbbbbbbbbbbbbbbbbbbbbbbbbbbbbbbbbbbbbbbbbbbbbbbbbbbbb.example"), None),
     ([], "pctenc component %s" % tok("ü" * 40), None),
